@@ -320,6 +320,8 @@ def run_c02(chk, F):
                             "build has the same effect summary (transitively through masm): Trap kinds reaching a "
                             "bailout/trap emitter, SlowPathKind constructors, RuntimeFunction variants, write-barrier "
                             "emitters reached, RelocationKind recorded")
+    from rules import boots_width
+    boots_width.run(chk, F)         # C02.R16: Dora trees only, independent of the aarch64 fact set
     A = _a64(F, r)
     if A is None:
         return
